@@ -126,3 +126,68 @@ def r5(cx, rec):
                           'the matcher descends into dictionary values (and keys) and returns the first value whose key matches anywhere in '
                           'the tree: for d1:ad4:infoi1ee4:infod...ee the hash is taken over the nested i1e, while the parser reads the '
                           'top-level info dictionary')
+
+
+@TABLE.rule('5b', 'K1', 'in the key matcher a recursive descent happens only after the current key is known not to match (a matched key returns its own value first)', floor=2)
+def r5b(cx, rec):
+    F = cx.F
+    for f in F.user_fns():
+        if not f.path.startswith('bcodec::') or f.kind == 'Closure':
+            continue
+        params = [v['n'] for v in f.raw['vars'] if 'arg' in v]
+        if 'key' not in params:
+            continue
+        selfrec = [bb for bb in mirq.real_calls(f) if (f.blocks[bb]['t'].get('callee') or '') == f.path]
+        if not selfrec:
+            continue
+        # the match flag: named local assigned from comparisons with `key`
+        flags = set()
+        for bi, si, s in f.assigns():
+            if not s['lhs'].get('p'):
+                nm = f._localnames.get(s['lhs']['l'])
+                e = f.expr_rvalue(s['rv'])
+                if nm and any(x[0] == 'call' and x[4].get('name') in ('eq', 'ne') and any(access_path(a) == 'key' for a in x[2]) for x in walk(e)):
+                    flags.add(nm)
+            t = f.blocks[bi]['t']
+        for bb in mirq.real_calls(f):
+            t = f.blocks[bb]['t']
+            if t.get('name') in ('eq', 'ne') and not t['dest'].get('p'):
+                nm = f._localnames.get(t['dest']['l'])
+                if nm and any(access_path(a) == 'key' for a in f.expr_call(bb)[2]):
+                    flags.add(nm)
+        for rb in selfrec:
+            ok = False
+            for sb in f.switches():
+                ce, ts, o = f.cond(sb)
+                be = f.bool_edges(sb)
+                if not be:
+                    continue
+                tt, ff = be
+                x = ce
+                is_flag = x[0] in ('var', 'mvar') and x[1] in flags
+                is_cmp = x[0] == 'call' and x[4].get('name') == 'eq' and any(access_path(a) == 'key' for a in x[2])
+                if (is_flag or is_cmp) and (rb in f.only_via_edge((sb, ff))):
+                    ok = True
+            rec.site(f, rb, 'recursive descent only on the not-matched edge: %s (match flags: %s)' % (ok, sorted(flags)))
+            rec.need(ok, 'descent-before-match/' + f.path, f, rb,
+                     'the matcher descends into a nested dictionary before honouring a match of the current key: a key spelled like the wanted '
+                     'one inside the value shadows the value itself, and the hash is taken over the inner value')
+
+
+@TABLE.rule('5c', 'K7', 'raw re-serialisers emit the wrapper bytes depending only on the extract flag, never on the content', floor=2)
+def r5c(cx, rec):
+    F = cx.F
+    for fn in ('raw_list', 'raw_dict', 'raw_int', 'raw_byte_str'):
+        fs = [x for x in F.user_fns() if x.path.endswith('DeepFinder::' + fn)]
+        if not fs:
+            raise AnchorMissing(fn)
+        f = fs[0]
+        conds = []
+        for sb in f.switches():
+            ce, ts, o = f.cond(sb)
+            if f.bool_edges(sb):
+                conds.append(show(ce))
+        rec.site(f, None, '%s branches on %s' % (fn, conds))
+        bad = [c for c in conds if c != 'extract']
+        rec.need(not bad, 'raw-content-dependent/' + fn, f, None,
+                 '%s decides what to emit by %s: the re-serialised bytes then differ from the input span for some contents (e.g. an empty list)' % (fn, bad))
